@@ -33,6 +33,9 @@ type Case struct {
 	FirstChan int   `json:"firstchan"`
 	NChan     int   `json:"nchan"`
 	Idx       int   `json:"idx"`
+	Demux     bool  `json:"demux,omitempty"` // abaco: go through packets + AbacoGroup.demuxData (all channels of the group)
+	PF        int   `json:"pf,omitempty"`    // abaco demux: frames per packet; roach stream: samples per packet
+	Stream    bool  `json:"stream,omitempty"` // roach: go through UDP packets + RoachDevice.readPackets (all channels)
 	// the stream and the call boundaries (chunk lengths; the rest of the stream is a final call)
 	Xs   []int `json:"xs"`
 	Cuts []int `json:"cuts"`
@@ -398,6 +401,17 @@ func genOptions(r *lib.Rng, c *Case, kind string, malformed bool) {
 	if r.Chance(1, 4) {
 		c.InvChan = append(c.InvChan, c.FirstChan+c.Idx)
 	}
+	if kind == "abaco" {
+		c.Demux = r.Bool()
+		c.PF = r.Pick([]int{1, 2, 3, 7, 16, 50})
+	}
+	if kind == "roach" && r.Chance(1, 6) {
+		// each such case costs at least readPackets' 100 ms bundling window
+		c.Stream = true
+		c.NChan = r.Range(1, 4)
+		c.Idx = r.Intn(c.NChan)
+		c.PF = r.Pick([]int{1, 3, 10, 40})
+	}
 	if malformed {
 		switch r.Intn(3) {
 		case 0:
@@ -436,6 +450,9 @@ func genCase(r *lib.Rng, id int64, tier string) Case {
 	}
 	c.Xs = genStream(r, ci, n)
 	c.Cuts = genCuts(r, len(c.Xs), ci)
+	if c.Stream {
+		c.Cuts = nil
+	}
 	return c
 }
 
@@ -656,17 +673,120 @@ func (c *Case) kindTerm() string {
 	}
 }
 
+// otherChannel derives the stream of another channel of the group from the case's stream (deterministic,
+// so that shrinking the case keeps all channels consistent).
+func otherChannel(xs []int, ch int) []uint16 {
+	out := make([]uint16, len(xs))
+	for i, x := range xs {
+		out[i] = uint16(x + 7919*(ch+1)*(i+1) + 12345*ch)
+	}
+	return out
+}
+
+// runDemux runs the case through AbacoGroup.demuxData: every channel of the group gets a stream (channel
+// Idx gets the case's stream), once as a single call and once cut into the case's calls.
+func (c *Case) runDemux(chunks [][]int) (built string, single []int, split [][]int, err error) {
+	defer func() {
+		if e := recover(); e != nil {
+			built, single, split, err = "panic", nil, nil, nil
+		}
+	}()
+	mkCalls := func(pieces [][]int) [][][]uint16 {
+		calls := make([][][]uint16, len(pieces))
+		pos := 0
+		for k, piece := range pieces {
+			calls[k] = make([][]uint16, c.NChan)
+			for ch := 0; ch < c.NChan; ch++ {
+				if ch == c.Idx {
+					calls[k][ch] = make([]uint16, len(piece))
+					for i, x := range piece {
+						calls[k][ch][i] = uint16(x)
+					}
+				} else {
+					calls[k][ch] = otherChannel(c.Xs, ch)[pos : pos+len(piece)]
+				}
+			}
+			pos += len(piece)
+		}
+		return calls
+	}
+	toInts := func(xs []uint16) []int {
+		out := make([]int, len(xs))
+		for i, x := range xs {
+			out[i] = int(x)
+		}
+		return out
+	}
+	o1, e := dastard.VerifC12AbacoDemux(c.options(), c.FirstChan, c.NChan, mkCalls([][]int{c.Xs}), c.PF)
+	if e == dastard.ErrVerifC12Rejected {
+		return "rejected", nil, nil, nil
+	}
+	if e != nil {
+		return "", nil, nil, e
+	}
+	o2, e := dastard.VerifC12AbacoDemux(c.options(), c.FirstChan, c.NChan, mkCalls(chunks), c.PF)
+	if e != nil {
+		return "", nil, nil, e
+	}
+	single = toInts(o1[0][c.Idx])
+	split = make([][]int, len(chunks))
+	for k := range chunks {
+		split[k] = toInts(o2[k][c.Idx])
+	}
+	return "ok", single, split, nil
+}
+
+// runRoachStream sends the case's stream (channel Idx; the other channels get derived streams) as UDP
+// packets to a RoachDevice and returns channel Idx's concatenated block output.
+func (c *Case) runRoachStream() (built string, single []int, err error) {
+	data := make([][]uint16, c.NChan)
+	for ch := range data {
+		if ch == c.Idx {
+			data[ch] = make([]uint16, len(c.Xs))
+			for i, x := range c.Xs {
+				data[ch][i] = uint16(x)
+			}
+		} else {
+			data[ch] = otherChannel(c.Xs, ch)
+		}
+	}
+	var out [][]uint16
+	var rej bool
+	for attempt := 0; attempt < 3; attempt++ {
+		out, rej, err = dastard.VerifC12RoachStream(c.options(), data, c.PF)
+		if err == nil {
+			break
+		}
+	}
+	if err != nil {
+		return "", nil, err
+	}
+	if rej {
+		return "rejected", nil, nil
+	}
+	single = make([]int, len(out[c.Idx]))
+	for i, v := range out[c.Idx] {
+		single[i] = int(v)
+	}
+	return "ok", single, nil
+}
+
 func runCase(c Case) (lib.Result, error) {
 	for i := range c.Xs {
 		c.Xs[i] &= 0xffff
 	}
-	if c.Kind == "abaco" {
+	if c.Kind == "abaco" || c.Stream {
 		if c.NChan < 1 {
 			c.NChan = 1
 		}
 		if c.Idx < 0 || c.Idx >= c.NChan {
 			c.Idx = 0
 		}
+	}
+	if c.Kind == "roach" && c.Stream {
+		// readPackets decides where the blocks end (timing); the case is rendered as one call on the whole
+		// stream, which by the property gives the same output as any other cut
+		c.Cuts = nil
 	}
 	res := lib.Result{ID: c.ID}
 	hc := c
@@ -677,7 +797,27 @@ func runCase(c Case) (lib.Result, error) {
 	ci := c.info()
 
 	var ob observed
-	u1, built, err := c.construct()
+	var u1 *dastard.PhaseUnwrapper
+	var built string
+	var err error
+	viaSource := (c.Kind == "abaco" && c.Demux) || (c.Kind == "roach" && c.Stream)
+	if c.Kind == "abaco" && c.Demux {
+		tags["abaco-demux"] = true
+		built, ob.Single, ob.Split, err = c.runDemux(chunks)
+		if built == "ok" {
+			// a second construction by the direct route, only to read the limits for the tags below
+			u1, _, _ = c.construct()
+		}
+	} else if c.Kind == "roach" && c.Stream {
+		tags["roach-readpackets"] = true
+		built, ob.Single, err = c.runRoachStream()
+		if built == "ok" {
+			ob.Split = [][]int{ob.Single}
+			u1, _, err = c.construct()
+		}
+	} else {
+		u1, built, err = c.construct()
+	}
 	if err != nil {
 		return res, err
 	}
@@ -691,17 +831,19 @@ func runCase(c Case) (lib.Result, error) {
 		obsTerm = "rejected"
 		tags["options-rejected"] = true
 	default:
-		ob.Single = unwrap(u1, c.Xs)
-		u2, b2, err := c.construct()
-		if err != nil {
-			return res, err
-		}
-		if b2 != "ok" {
-			return res, fmt.Errorf("construction is not repeatable: %s then %s", built, b2)
-		}
-		ob.Split = make([][]int, len(chunks))
-		for i, ch := range chunks {
-			ob.Split[i] = unwrap(u2, ch)
+		if !viaSource {
+			ob.Single = unwrap(u1, c.Xs)
+			u2, b2, err := c.construct()
+			if err != nil {
+				return res, err
+			}
+			if b2 != "ok" {
+				return res, fmt.Errorf("construction is not repeatable: %s then %s", built, b2)
+			}
+			ob.Split = make([][]int, len(chunks))
+			for i, ch := range chunks {
+				ob.Split[i] = unwrap(u2, ch)
+			}
 		}
 		obsTerm = fmt.Sprintf("(ok %s %s)", zlist(ob.Single), zlistlist(ob.Split))
 	}
